@@ -14,6 +14,31 @@ CLI_NOTE = ("CLI correspondence: seeded command histories on real temporary proj
 POOL_NOTE = ("The theorems are about the labelled transition system GwfModel/Pool.lean (labels = the events observable on the real Scheduler). "
              "That asyncio realises only enabled transitions is VALIDATED by trace acceptance on the explored schedules (virtual clock, fake subprocess, instrumented semaphore/state table; fine-grained settling so cancels hit every await point), not proved. ")
 CHECKS = {
+ "C06": dict(
+   text="Theorems for ALL acyclic workflows: with no live/failed/cancelled job the submitted set is exactly the closure of the stale targets under 'depends on' (submits_is_stale_closure, rerun_exact: submitted iff transitively downstream of a stale target); convergence: if every target with outputs is file-wise up to date and jobs are all completed/unknown, every such target is reported completed and the next run submits exactly the targets without outputs (converges, by induction on rank); the file-level premise is proved for any execution order in which each job stamps its outputs after all its prerequisites (TouchLemmas.stampSeq_uptodate, arbitrary length).",
+   note=CLI_NOTE + "The glue between the abstract premises (no two producers, inputs produced earlier or existing) and the graph model is by C03/C04 theorems; it is not assembled into one end-to-end Lean statement (partial). Real kernel mtimes are replaced by os.utime stamps. Local worker pool backend is covered by C07/C11-C14 checks, not by this history engine.",
+   technique="Lean 4 proof (closure characterisation, induction on rank, stamping lemma) + CLI history correspondence on Slurm/SGE/LSF fakes",
+   design="§6-C06"),
+ "C15": dict(
+   text="Theorems for ALL worlds, workflows, selections: after clean a file is gone iff it existed and is a declared output of a cleaned target that does not protect it, every other file (sources, logs, state, unrelated) is untouched (clean_deletes_exactly, undeclared_files_untouched); without --all no endpoint is cleaned; cleaned targets are exactly the name-selected ones; their spec hashes are erased and all others kept (hashes_forgotten); tracked jobs/cluster/config untouched; protection compares normalised paths (spelling irrelevant).",
+   note=CLI_NOTE + "The declined prompt is not modelled (no state transition exists for it); that it changes nothing is checked on every history with answers n / EOF.",
+   technique="Lean 4 proof (fold lemmas over association lists) + CLI history correspondence",
+   design="§6-C15"),
+ "C16": dict(
+   text="Theorems: touchVisit yields a duplicate-free post-order containing every requested target, for any acyclic graph (touch_postorder, fuel-adequate by rank); for ANY sequence of targets in which each input is produced earlier in the sequence or is an existing non-future file nobody in the sequence produces, and no file has two producers, stamping outputs with an increasing clock leaves every target's outputs present and no input newer than any output, so should_run is false (touch_makes_uptodate via stampSeq_uptodate + C01); files outside the touched outputs keep their stamps, tracked jobs and cluster untouched (touch_frame); specs recorded when hashing is on; a live/failed/cancelled job still determines the status.",
+   note=CLI_NOTE + "Content preservation: contents are not part of the state the model's touch can write; checked by hashing every file before/after. The instantiation of the sequence premises from the graph theorems (C03 deps_iff, C04 no duplicate producer) is argued in DESIGN, not assembled in Lean (partial).",
+   technique="Lean 4 proof (post-order DFS invariant, stamping lemma) + CLI history correspondence with instrumented Path.touch",
+   design="§6-C16"),
+ "C17": dict(
+   text="Theorems: the cancel requests are exactly one per selected target, aimed at its tracked job id, none for other targets (cancel_exact: a map over the selection, so no request depends on the fate of another); after the scheduler carried out a cancel the target is reported neither submitted nor running on every backend (after_cancel_not_in_flight); jobs with other ids keep their state; a cancelled/failed target is submitted by the next pass whatever its files (cancelled_is_resubmitted); cancel touches no file, tracked id or hash.",
+   note=CLI_NOTE + "'One failure stops nothing else' is structural in the model (map); for the implementation it is checked by injecting a failing scancel/qdel/bkill at positions 1-3.",
+   technique="Lean 4 proof + CLI history correspondence with fault injection on Slurm/SGE/LSF fakes",
+   design="§6-C17"),
+ "C18": dict(
+   text="Theorems: stale-by-spec iff hashing on and record ≠ current spec (or missing), never when disabled, everything stale on first use; an accepted submission records exactly that target's spec and nothing else, targets not among the accepted submissions keep their record (run_keeps_others — covers rejected submissions), a run while disabled changes nothing, touch records exactly the touched target, clean erases exactly the cleaned targets; status/dry-run return no state (C05); a stale target without a live job is submitted.",
+   note=CLI_NOTE + "sha1 is modelled as the identity on spec text (no collisions assumed). Persistence across invocations is the JSON file, checked by re-reading it after every command in fresh CLI invocations.",
+   technique="Lean 4 proof (fold lemmas) + CLI history correspondence over random command sequences",
+   design="§6-C18"),
  "C05": dict(
    text="Theorems for ALL acyclic workflows / backend vectors / file states / selections: a target is in the submission log of the scheduling pass iff the same pass caches it as shouldrun/failed/cancelled (submitted_iff_shown_needing_run), targets cached submitted/running/completed are not submitted, any selection-restricted pass shows the same status as the full table (one table), run submits exactly the plan that dry-run announces (same function), each accepted submission adds one pending job with the tracked ids of its prerequisites and touches no file, every filter combination is the stated restriction of the one table (filters_restrict), and on an invalid workflow every command fails and yields no new state (commands_inert_on_error).",
    note=CLI_NOTE + "In the model the previews are pure by type (they return no World); that the real status/dry-run change nothing (file tree, logs, tracked ids, hashes, no submit/cancel calls) is checked on every explored history.",
